@@ -161,6 +161,44 @@ def run(rep, tier, seed):
                 classify(k, r, text, out, "GLR", None)
             else:
                 n_nontrivial += 1
+    # custom lexers: real outcome == run_lex with the Gallina mirror of the harness lexer
+    cjobs = []
+    cust_items = [r for r in cresults if r.status == "OK" and r.dump is not None and r.dump.conflicts == 0]
+    for k in range(0, len(cust_items), 6):
+        chunk = cust_items[k:k + 6]
+        body = [LC.HEADER]
+        for n, r in enumerate(chunk):
+            body.append("Definition g%d := %s.\nDefinition T%d := %s." % (n, gl_grammar(r.dump), n, gl_table(r.dump)))
+            lexterm = "lex_all" if r.case.lexer == "all" else "(lex_foreign g%d T%d)" % (n, n)
+            terms = []
+            for i, text in enumerate(r.case.inputs):
+                out = r.results.get(("LR", i))
+                if out is None or out.split(" ")[0] in ("TIMEOUT", "CRASH"):
+                    terms.append("true")
+                    continue
+                term, _, _ = LC.real_to_model(out)
+                kinds = gl_nats(LC.letters_to_kinds(tuple(text.split())))
+                terms.append("outcome_eqb (run_lex_auto g%d T%d %s %s) (%s)" % (n, n, lexterm, kinds, term))
+            body.append("Eval vm_compute in %s." % gl_list(terms if terms else ["true"]))
+        cjobs.append(("c15cl_%d" % (k // 6), "\n".join(body) + "\n", chunk))
+    couts = coq_eval_many([(j[0], j[1]) for j in cjobs])
+    n_custom_corr = 0
+    for (name, body, chunk), (ok, out) in zip(cjobs, couts):
+        ans = parse_bools(out) if ok else []
+        for j, r in enumerate(chunk):
+            if j >= len(ans):
+                rep.violation("coq-eval", "Coq evaluation of the custom-lexer case failed",
+                              dict(grammar=r.case.grammar, out=out[-800:]), found_input=False)
+                continue
+            for i, b in enumerate(ans[j]):
+                n_custom_corr += 1
+                if not b:
+                    rep.violation("corr-custom-lexer", "real LRParser with a custom lexer and the Gallina model run_lex disagree",
+                                  dict(grammar=r.case.grammar, lexer=r.case.lexer, input=r.case.inputs[i],
+                                       real=r.results.get(("LR", i)),
+                                       obligation="correspondence Model.LR.run_lex vs rustemo::LRParser with harness/src/custom.rs"),
+                                  found_input=False)
+                    break
     n_custom = 0
     for r in cresults:
         if r.status != "OK" or r.dump is None or r.dump.conflicts != 0:
@@ -193,7 +231,7 @@ def run(rep, tier, seed):
              "GlrParser under catch_unwind + watchdog; custom lexers `all` (context-free: tries every terminal) and "
              "`foreign` (always an unexpected kind) on token-level grammars; non-trivial = runs that returned Ok/Err",
         outcome_kinds=outcome_kinds, tables_validated=nval, tables_failing_reduce_acyclic=acyclic_false,
-        custom_lexer_runs=n_custom, samples=samples,
+        custom_lexer_runs=n_custom, custom_lexer_runs_equal_to_model=n_custom_corr, samples=samples,
         partial="termination is not proved: reduce_acyclic_b is a sufficient condition evaluated per table; hangs are "
                 "detected by the watchdog; stack overflow / memory exhaustion cannot be exhibited by the model")
     rep.assumptions = ["watchdog limit 3 s per input stands for 'bounded time'",
